@@ -51,10 +51,17 @@ type c06Cfg struct {
 	multi *c06Multi
 	// state of the channel when chip authentication starts (c06Chan*; 0 = a session exists)
 	channel int
+	// arrange 3 only: a further key entry FOLLOWS the chip's key in DG14 (still no info):
+	// 1 = a finite-field DH key, 2 = an EC key on another curve that the chip does not hold.
+	// The documented inference takes the FIRST key.
+	extraKey int
 }
 
 func (c c06Cfg) String() string {
 	s := fmt.Sprintf("curve=%s suite=%v form=%d arrange=%d grind=%v strategy=%s", ecref.All()[c.curve].Name, c.suite, c.form, c.arrange, c.grind, c.strategy)
+	if c.extraKey != 0 {
+		s += fmt.Sprintf(" extra-key-entry-after-the-chips-key=%d", c.extraKey)
+	}
 	if c.multi != nil {
 		s += " multi=" + c.multi.String()
 	}
@@ -82,6 +89,28 @@ func c06BuildDG14(cfg c06Cfg, keys []*issuer.Key, ids []int, infoKeyID int) []by
 	}
 	if cfg.arrange != 3 {
 		infos = append(infos, issuer.ChipAuthInfo(int(cfg.suite), infoKeyID))
+	}
+	if cfg.arrange == 3 && cfg.extraKey != 0 {
+		// written order matters here: the chip's key first, the further entry last
+		var extra []byte
+		if cfg.extraKey == 1 {
+			// deterministic finite-field DH public key entry (id-PK-DH), no key identifier
+			p := make([]byte, 128)
+			for i := range p {
+				p[i] = byte(0x3B + 7*i)
+			}
+			p[0] |= 0x80
+			p[127] |= 1
+			num := func(b []byte) []byte { return der.Int(new(big.Int).SetBytes(b)) }
+			spki := der.Seq(der.Seq(der.OID(1, 2, 840, 10046, 2, 1), der.Seq(num(p), der.Int64(2), num(p[:20]))), der.BitString(num(p[1:])))
+			extra = der.Seq(der.OID(0, 4, 0, 127, 0, 7, 2, 2, 1, 1), spki)
+		} else {
+			other := ecref.All()[(cfg.curve+3)%len(ecref.All())]
+			d := new(big.Int).SetBytes([]byte{0x5A, 0x17, 0x33, 0x91, 0x02, 0x7F, 0x11, 0x45})
+			ok := &issuer.Key{EC: &issuer.ECKey{Curve: other, D: d, Q: other.Mul(d, other.G())}}
+			extra = issuer.ChipAuthPublicKeyInfo(ok.SPKI(), -1)
+		}
+		return der.T(0x6E, der.SetUnsorted(append(infos, extra)...))
 	}
 	return der.T(0x6E, der.Set(infos...))
 }
@@ -501,6 +530,12 @@ func runC06(c *fw.Ctx) {
 				}
 				for ss := 0; ss < sessions; ss++ {
 					pos = append(pos, c06Cfg{curve: cv, suite: s, arrange: arr, form: (cv + int(s) + arr + ss) % 3})
+				}
+				if arr == 3 {
+					// the info is missing AND further key entries follow the chip's key
+					for ek := 1; ek <= 2; ek++ {
+						pos = append(pos, c06Cfg{curve: cv, suite: s, arrange: 3, form: (cv + ek) % 3, extraKey: ek})
+					}
 				}
 			}
 		}
